@@ -7,14 +7,44 @@ use rustyline::error::ReadlineError;
 use rustyline::Editor;
 
 fn check_bracket_closed(chars: impl Iterator<Item = char>) -> bool {
+    // parentheses inside comments, strings, |symbols| and #\c characters are not list brackets
+    let mut chars = chars.peekable();
     let mut count = 0;
-    let mut in_comment = false;
-    for c in chars {
-        match (c, in_comment) {
-            ('(', false) => count += 1,
-            (')', false) => count -= 1,
-            (';', false) => in_comment = true,
-            ('\n', true) => in_comment = false,
+    while let Some(c) = chars.next() {
+        match c {
+            '(' => count += 1,
+            ')' => count -= 1,
+            ';' => {
+                for c in chars.by_ref() {
+                    if c == '\n' {
+                        break;
+                    }
+                }
+            }
+            '"' => {
+                while let Some(c) = chars.next() {
+                    match c {
+                        '"' => break,
+                        '\\' => {
+                            chars.next();
+                        }
+                        _ => (),
+                    }
+                }
+            }
+            '|' => {
+                for c in chars.by_ref() {
+                    if c == '|' {
+                        break;
+                    }
+                }
+            }
+            '#' => {
+                if chars.peek() == Some(&'\\') {
+                    chars.next();
+                    chars.next();
+                }
+            }
             _ => (),
         }
     }
